@@ -5,6 +5,8 @@ a dangling prerequisite never exits.  Checks on the real planner:
   T3   every plan accepted by prepare() is exported and must pass wf_plan_auto in Coq (every prerequisite produced,
        wait-for acyclic, produced sets distinct and non-empty);
   run  every accepted plan is run under a wall-clock watchdog in SYNC and THREADING: it returns or raises, never hangs;
+  poly (harness/c04_poly.py) requests with polymorphic links (ties at the minimal inheritance distance): join steps identical in
+       every preparation / hash seed and equal to Model/LinkSelReq.request_joins (C04_link_selection_order_independent, ...)
   det  every request is prepared 3x in this process (fresh uuids) and once per PYTHONHASHSEED in fresh subprocesses;
        outcomes (canonical, uuid-free plan or rejection class+rule) must coincide.  Differences are classified by WHICH
        part of the plan differs; each class observed on the unchanged tree is a known finding, any other class and any
@@ -227,7 +229,10 @@ def run(rep: vlib.Reporter, tier: str, seed: int) -> None:
         "the planner (execution_plan.py, resolve_links.py, resolve_compute_frameworks.py, graph) is NOT modelled: determinism is "
         "explored (repeated preparation, hash seeds), well-formedness is checked per exported plan by wf_plan_auto (T3)",
         "plan exporter and canonicaliser (harness/universe.py export_plan, canon_plan); PYTHONHASHSEED subprocess driver",
-        "termination theorems are about Model/Orch.v; the watchdog (15 s) observes the implementation"]
+        "termination theorems are about Model/Orch.v; the watchdog (15 s) observes the implementation",
+        "link selection: Model/LinkSel.v (C18's hand-written model of _find_matching_links / _select_most_specific_links) and "
+        "Model/LinkSelReq.v (request_joins: one join per (ordered pair of parents, selected link)); the iteration order of the Link set "
+        "is the list order; tied by harness/c04_poly.py (join steps of the real plan under 6+ hash seeds = request_joins)"]
     big = tier == "thorough"
     n = 500 if big else 70
     seeds = list(range(8 if big else 4))
@@ -339,6 +344,11 @@ def run(rep: vlib.Reporter, tier: str, seed: int) -> None:
         rep.finding("proof-broken-PlannerA", "Props/PlannerA.v no longer checks",
                     {"failed_files": prA.failed_files, "log_tail": prA.log[-2000:]}, found_input=False)
     found = _planner_models(rep, rng, specs, seeds, big, dist) or found
+    # polymorphic links (links declared on base classes; Model/LinkSel.v + LinkSelReq.v, theorems C04_link_selection_* /
+    # C04_request_joins_order_independent): join steps the same in every preparation and under every hash seed, = the model
+    from harness import c04_poly
+    found = c04_poly.check(rep, rng, big, list(range(1, 11 if big else 7))) or found
+    dist["polymorphic_links"] = dict(c04_poly.LAST_INFO)
     rep.count(len(pa_specs))
     rep.count(len(specs) * (3 + len(seeds)) + n_runs)
     rep.add("distribution", dist)
@@ -346,7 +356,11 @@ def run(rep: vlib.Reporter, tier: str, seed: int) -> None:
     rep.add("rule", "requests: 40% 2-4 root groups with a tree-shaped link set (chain/star, random orientation, six join types, "
                     "frameworks per root, equal or different key names) and a consumer, 15% single-framework DAGs (strict "
                     "fragment), 45% merge-free multi-framework DAGs. Each prepared 3x in-process and under several hash seeds; "
-                    "accepted plans checked by wf_plan_auto and run in SYNC and THREADING under a watchdog. non-trivial = accepted")
+                    "accepted plans checked by wf_plan_auto and run in SYNC and THREADING under a watchdog. non-trivial = accepted. "
+                    "Polymorphic-link family: 13 witness requests + PRNG class forests (2-3 hierarchies, base + 1-2 subclass levels, "
+                    "one or two frameworks), link sets with 0-3 polymorphic links tying at the minimal distance for one concrete pair "
+                    "(balanced and asymmetric, different join types / indexes), optional exact, less specific, reversed and third-source "
+                    "links; 2 preparations in-process + 2 per hash seed (6 quick / 10 thorough); non-trivial = accepted with a join step")
     rep.sample({"spec": specs[0], "outcome": {k: v for k, v in outs[0][0].items() if k in ("accepted", "exc", "msg")}})
     from harness import srctie      # source-text tie (Props/SrcTie.v): definitions regenerated from the source text = the models
     found = (not srctie.check(rep)) or found
@@ -368,6 +382,10 @@ def replay(path: str) -> int:
         for d_ in dis:
             print("KNOWN" if d_.get("known") else "DISAGREEMENT", d_["stage"], d_.get("run"), d_["what"][:400])
         print("judge:", planner_o.judge(r["spec"]))
+        return 0
+    if r.get("kind") == "poly":
+        from harness import c04_poly
+        c04_poly.replay(r)
         return 0
     install()
     o = [outcome(r["spec"]) for _ in range(3)]
